@@ -82,7 +82,17 @@ func ruleFlagNonInterference(c *Ctx, r *Report, rule string) {
 					r.bad(rule, key, "an if on an introspection flag has an else branch: the flag selects between behaviours", c.pos(p.Pos()))
 					return true
 				}
-				for _, s := range p.Body.List {
+				// guard form: `if !flag || … { return }` in a function without results — what follows the if is
+				// the guarded code
+				guarded := p.Body.List
+				if len(p.Body.List) == 1 {
+					if rs, isR := p.Body.List[0].(*ast.ReturnStmt); isR && len(rs.Results) == 0 && (fd.Type.Results == nil || len(fd.Type.Results.List) == 0) {
+						if list, i := stmtListOf(pm, p); list != nil && pm[p] == ast.Node(fd.Body) {
+							guarded = list[i+1:]
+						}
+					}
+				}
+				for _, s := range guarded {
 					es, isE := s.(*ast.ExprStmt)
 					if !isE {
 						r.bad(rule, key, fmt.Sprintf("under an introspection flag the code does more than call observers (%T)", s), c.pos(s.Pos()))
@@ -422,23 +432,84 @@ func checkC19(c *Ctx, r *Report) {
 	ruleTraceCount(c, r, "trace-count")
 	ruleShape(c, r, "decode-agreement", true, false)
 	r.rule("options", 3, "OptDisasm/OptTrace/OptStats only set their flag")
-	for opt, fld := range map[string]string{"OptDisasm": "disasm", "OptTrace": "trace", "OptStats": "stats"} {
+	for _, of := range [][2]string{{"OptDisasm", "disasm"}, {"OptStats", "stats"}, {"OptTrace", "trace"}} {
+		opt, fld := of[0], of[1]
 		_, fd := c.find(opt)
 		ok := false
+		got := "function not found"
 		if fd != nil {
-			ast.Inspect(fd.Body, func(n ast.Node) bool {
-				if lit, isL := n.(*ast.FuncLit); isL && len(lit.Body.List) == 1 {
-					if as, isA := lit.Body.List[0].(*ast.AssignStmt); isA && len(as.Lhs) == 1 {
-						if sel, isS := as.Lhs[0].(*ast.SelectorExpr); isS && sel.Sel.Name == fld && c.isObj(as.Rhs[0], c.paramObj(fd, 0)) {
-							ok = true
-						}
-					}
-				}
-				return true
-			})
+			stores, und := c.optionStores(fd)
+			got = strings.Join(stores, ", ")
+			ok = len(stores) == 1 && stores[0] == fld+"=x" && len(und) == 0
+			if len(und) > 0 {
+				got += " (undecided: " + strings.Join(und, "; ") + ")"
+			}
 		}
-		r.check(ok, "options", opt, "cf."+fld+" = x", opt+" must only set config."+fld, "")
+		r.check(ok, "options", opt, "cf."+fld+" = x", opt+" must only set config."+fld+" to its argument; applied to a config it stores: "+got, "")
 	}
 	r.note("textual equality of outputs with and without the options; that the observers cannot panic on programs that were not produced by the compiler (loaded bytecode)")
 	r.trust("index expressions inside the disassembler are in range for compiled programs by C10's well-formedness")
+}
+
+
+// optionStores interprets an option constructor Opt(x) and applies the Option it returns to a config: the stores
+// into config fields ("field=value", the argument rendered as x), in order.
+func (c *Ctx) optionStores(fd *ast.FuncDecl) (stores []string, undecided []string) {
+	var h Hooks
+	h.Inline = func(fn *types.Func) bool { return fn.Pkg() != nil && fn.Pkg().Path() == bclPath }
+	h.CallValue = func(in *Interp, st *State, call *ast.CallExpr, fn *types.Func, args []Value) ([]valState, bool) {
+		return nil, false
+	}
+	h.Store = func(in *Interp, st *State, lhs ast.Expr, op token.Token, v Value) bool {
+		sel, ok := lhs.(*ast.SelectorExpr)
+		if !ok {
+			return false
+		}
+		fp := c.fieldPath(sel)
+		if !strings.HasPrefix(fp, "<config>.") {
+			return false
+		}
+		val := "?"
+		switch {
+		case v.K == vTag && v.Tag == "x":
+			val = "x"
+		case v.K == vConst:
+			val = v.C.ExactString()
+		}
+		p := st.P.(*strsPay)
+		p.items = append(p.items, strings.TrimPrefix(fp, "<config>.")+"="+val)
+		return true
+	}
+	in := newInterp(c, h)
+	st := &State{Env: map[types.Object]Value{}, P: &strsPay{}}
+	res := in.inlineBody(st, fd.Type, fd.Body, fd.Recv, []Value{tagV("x", nil)})
+	seen := map[string]bool{}
+	for _, vs := range res {
+		fv := vs.v
+		if fv.K != vFunc {
+			undecided = append(undecided, "the constructor does not return a function the model can follow")
+			continue
+		}
+		var applied []valState
+		switch {
+		case fv.Lit != nil:
+			applied = in.inlineLit(vs.st, fv.Lit, []Value{tagV("cfg", nil)})
+		case fv.FnObj != nil:
+			if hd := c.funcDecls[fv.FnObj]; hd != nil && hd.Body != nil {
+				applied = in.inlineBody(vs.st, hd.Type, hd.Body, hd.Recv, []Value{tagV("cfg", nil)}, recvOpt{fv.Recv})
+			}
+		}
+		if applied == nil {
+			undecided = append(undecided, "the returned option could not be applied")
+		}
+		for _, a := range applied {
+			k := strings.Join(a.st.P.(*strsPay).items, ", ")
+			if !seen[k] {
+				seen[k] = true
+				stores = append(stores, a.st.P.(*strsPay).items...)
+			}
+		}
+	}
+	undecided = append(undecided, in.Undecided...)
+	return dedupe(stores), undecided
 }
